@@ -505,6 +505,10 @@ func (e *Engine) Run(plan *Plan, dec *core.Decider) *RunResult {
 			}
 		}
 	}
+	desc := ""
+	if reason != "" {
+		desc = e.describeTasks()
+	}
 	if reason != "" || len(e.viol) > 0 {
 		res.LeftTasks = sim.KillAll()
 	}
@@ -517,7 +521,7 @@ func (e *Engine) Run(plan *Plan, dec *core.Decider) *RunResult {
 		e.checkHistory()
 	}
 	if reason == "deadlock" || reason == "stepcap" || reason == "panic" || reason == "quiesce-stuck" {
-		e.violate("C08", reason, fmt.Sprintf("%s at step %d: %s", reason, sim.Step, e.describeTasks()), 0)
+		e.violate("C08", reason, fmt.Sprintf("%s at step %d: %s", reason, sim.Step, desc), 0)
 	}
 	res.Violations = e.viol
 	res.Steps = sim.Step
@@ -582,7 +586,7 @@ func (e *Engine) eligible(ts []*core.Task) []*core.Task {
 	out := ts[:0:0]
 	for _, t := range ts {
 		if t.State() == core.StParked {
-			if (e.pausing || e.closing) && t.Site == SiteOpBoundary {
+			if (e.pausing || e.closing) && t.Site == SiteOpBoundary && !(e.closing && e.closer != nil && t == e.closer.task) {
 				continue
 			}
 			if t.Site == SiteCloserGate {
